@@ -150,13 +150,30 @@ def rule_nobody_iterates_schema(ctx, rid="R10.3"):
     disp = dispatcher(prog)
     reach = calls.reachable(calls.validation_roots())
     r = ctx.rule(rid, "no validation-reachable function other than the dispatcher's table walk iterates a schema object", floor=40)
+    # the table walk may live in a private helper of the dispatcher (called from nowhere else): then that helper's one
+    # `.items()` is the table walk, and the dispatcher itself must not iterate
+    disp_own = [x for x in reads_on_names(disp, {calls.param_with_role(disp, "schema")}, "schema", calls, depth=99) if x.kind in ITER_KINDS] \
+        if calls.param_with_role(disp, "schema") else []
+    walkers = set()
+    if not disp_own:
+        for g in calls.successors(disp):
+            if g.cls is None and all(c is disp or g not in calls.successors(c) for c in prog.funcs.values() if c is not g):
+                walkers.add(g)
     for f in sorted(reach, key=lambda x: x.qual):
         sp = calls.param_with_role(f, "schema")
+        if sp is None and f in walkers and f.params:
+            # the helper's parameter that receives the dispatcher's schema
+            for (_n, call, tg) in calls.calls_in(disp):
+                if any(t.kind == "func" and t.func is f for t in tg):
+                    dsp = calls.param_with_role(disp, "schema")
+                    for i, a in enumerate(call.args):
+                        if isinstance(a, ast.Name) and a.id == dsp and i < len(f.params):
+                            sp = f.params[i]
         if sp is None:
             continue
         rs = reads_on_names(f, {sp}, "schema", calls, depth=99)   # no helper following: each function on its own
         its = [x for x in rs if x.kind in ITER_KINDS]
-        if f is disp:
+        if f is disp or (f in walkers and its):
             allowed = [x for x in its if x.kind == "items"]
             for x in its:
                 if x.kind == "items" and len(allowed) == 1:
